@@ -37,7 +37,7 @@ def plan(tier):
 
 
 def _sort_of(slot):
-    return NAME_SORT[slot[1]]
+    return NAME_SORT.get(slot[1], 'N')  # an escaped bound variable (i, j) is a number
 
 
 def shape_problem(t):
